@@ -38,8 +38,8 @@ func (v *Notifier[T]) removeListener(value T, registeredListener *listener) {
 	valueListeners.count--
 
 	if valueListeners.count == 0 {
-		// No one is listening anymore, so we can close the channel and clean up
-		close(valueListeners.channel)
+		// No one is listening anymore, so we can clean up. The channel must not be closed here: closing it means
+		// "notified", and a Wait that races with the deregistration would report success without any Notify.
 		v.listeners.Delete(value)
 	}
 }
